@@ -78,6 +78,22 @@ def arraySetX (s : State) (h : Nat) (bytes : List Byte) : Out Nat :=
       else if bytes.length - x.used > x.size - x.used then setFresh s h bytes
       else .ok (setUsed s b x (Mem.write x.data 0 bytes) bytes.length) 0
 
+/-- `array::set(const value &)`: a new typed buffer (`buffer::create(reserve, traits)`) gets the data of the value —
+    strings with their terminator — and replaces the content of the array -/
+def arraySetValue (s : State) (h : Nat) (t : Traits) (bytes : List Byte) (nul : Bool) : Out Nat :=
+  let data := if nul then bytes ++ [0] else bytes
+  let nb := s.bufs.length
+  let s1 := s.newBuf data.length 0 (some t)
+  match s1.buf? nb with
+  | none => .fault "array::set: freed buffer"
+  | some z =>
+    if data.length > z.size ∨ t.size = 0 ∨ data.length % t.size ≠ 0 then .fail s1 .null
+    else
+      match replaceBuf (setUsed s1 nb z (Mem.write z.data 0 data) data.length) h (some nb) (s.handle h) with
+      | .ok s2 _ => .ok s2 0
+      | .fail s2 e => .fail s2 e
+      | .fault w => .fault w
+
 /-- the buffer of the handle has content traits -/
 def handleTyped (s : State) (h : Nat) : Bool :=
   match (s.handle h).bind s.buf? with
